@@ -1151,6 +1151,9 @@ func runStress(r *vx.Run, seed uint64, rounds, workers, iters int) {
 	r.Sum.Distribution["stress:rounds"] += int(res.rounds)
 	r.Sum.Notes = append(r.Sum.Notes, fmt.Sprintf("stress search (non-deterministic): %d rounds x %d workers x %d iterations, %d Lock calls, %d cancelled, %.1fs, GOMAXPROCS=%d",
 		res.rounds, workers, iters, res.calls, res.errs, time.Since(t0).Seconds(), runtime.GOMAXPROCS(0)))
+	if len(r.Sum.Samples) < 3 {
+		r.Sum.Samples = append(r.Sum.Samples, input{Stress: &stressHit{Seed: seed, Rounds: rounds, Workers: workers, Iterations: iters, LockCalls: res.calls}})
+	}
 	for _, f := range res.fails {
 		r.FailP("C15", f.sig, input{Stress: res.hit}, f.detail, 1000)
 	}
